@@ -51,6 +51,7 @@ type Obligation struct {
 	Model   string  `json:"model,omitempty"`
 	Output  string  `json:"output,omitempty"`
 	Expect  string  `json:"expect,omitempty"` // "fail" for canaries
+	Sweep   bool    `json:"sweep,omitempty"`
 	vc      *VC
 	SMTFile string `json:"-"`
 }
